@@ -199,6 +199,9 @@ class Reader(BaseValidator):
                 source_path = source_data_stream_or_path.name
             except AttributeError:
                 source_path = "<io>"
+            if not isinstance(source_path, str) or not source_path:
+                # For example temporary files have ``None`` or a file descriptor number as name.
+                source_path = "<io>"
         self._source_path = source_path
         self._location = errors.Location(source_path, has_cell=True)
         self._source_data_stream_or_path = source_data_stream_or_path
